@@ -154,3 +154,349 @@ Qed.
 Lemma transpose_n_col_length n rows j :
   (j < n)%nat -> List.length (nth j (transpose_n n rows) []) = List.length rows.
 Proof. intros Hj. rewrite transpose_n_nth by exact Hj. apply map_length. Qed.
+
+(* ======================================================================================= *)
+(* C02: both engines reduce to the token matrix of the data lines                          *)
+(* ======================================================================================= *)
+Require Import RegexSubFacts.
+
+Definition nonempty {A} (r : list A) : bool := match r with [] => false | _ => true end.
+
+Lemma concat_filter_nonempty {A} : forall l : list (list A), concat (filter nonempty l) = concat l.
+Proof.
+  induction l as [|r l IH]; [reflexivity|]. cbn [filter concat].
+  destruct r as [|x r]; cbn [nonempty concat app]; rewrite IH; reflexivity.
+Qed.
+
+Lemma forallb_concat {A} (f : A -> bool) : forall l, forallb f (concat l) = forallb (forallb f) l.
+Proof.
+  induction l as [|r l IH]; [reflexivity|]. cbn [concat forallb]. rewrite forallb_app, IH. reflexivity.
+Qed.
+
+(* what one physical line of the section contributes to the flat token array *)
+Definition line_items (d : dlm) (subs : list rsub) (raw : list N) : list (list N) :=
+  let line := strip raw in
+  if startswith [ch_hash] line then []
+  else
+    let line := remove_char 26 (apply_subs subs line) in
+    match line with [] => [] | _ => split_line d line end.
+
+Lemma normal_items_concat d subs : forall body,
+  normal_items d subs body = concat (map (line_items d subs) body).
+Proof.
+  induction body as [|raw body IH]; [reflexivity|].
+  cbn [normal_items map concat]. unfold line_items at 1.
+  destruct (startswith [ch_hash] (strip raw)); [exact IH|].
+  destruct (remove_char 26 (apply_subs subs (strip raw))); rewrite IH; reflexivity.
+Qed.
+
+Section Engines.
+Variable fhex : list N -> option (list N).
+Variable fstr : list N -> list N.
+
+Lemma column_cells_float col : column_cells fhex fstr false col = map (mk_num fhex) col.
+Proof. reflexivity. Qed.
+
+(* ---- the normal engine on lines of exactly c float tokens ------------------------------ *)
+Theorem normal_engine_rows d subs c body :
+  (0 < c)%nat ->
+  Forall (fun raw => line_items d subs raw = [] \/ List.length (line_items d subs raw) = c) body ->
+  filter nonempty (map (line_items d subs) body) <> [] ->
+  forallb (forallb (is_float_tok fhex)) (map (line_items d subs) body) = true ->
+  normal_engine fhex fstr d subs c body =
+  DOk (map (map (mk_num fhex)) (transpose_n c (filter nonempty (map (line_items d subs) body)))).
+Proof.
+  intros Hc Hall Hne Hfl. unfold normal_engine. rewrite normal_items_concat.
+  rewrite <- concat_filter_nonempty.
+  assert (Hf : forallb (is_float_tok fhex) (concat (map (line_items d subs) body)) = true)
+    by (rewrite forallb_concat; exact Hfl).
+  rewrite <- concat_filter_nonempty in Hf.
+  set (rows := filter nonempty (map (line_items d subs) body)) in *.
+  assert (Hrows : Forall (fun r : list (list N) => List.length r = c) rows).
+  { apply Forall_forall. intros r Hin. apply filter_In in Hin as [Hin Hr].
+    apply in_map_iff in Hin as (raw & <- & Hraw).
+    rewrite Forall_forall in Hall. destruct (Hall raw Hraw) as [E|E]; [|exact E].
+    rewrite E in Hr. discriminate. }
+  assert (Hn : match concat rows with [] => 0%nat | _ => c end = c).
+  { destruct rows as [|r0 rows']; [congruence|].
+    inversion Hrows as [|? ? Hr0 _]. destruct r0; [cbn in Hr0; lia|]. reflexivity. }
+  rewrite Hn. destruct c as [|c']; [lia|].
+  rewrite (reshape_concat (S c') rows Hc Hrows), Hf. cbn [negb]. reflexivity.
+Qed.
+
+(* ---- the numpy engine on rows of exactly c float tokens -------------------------------- *)
+Theorem numpy_engine_rows c body :
+  genfromtxt_rows body <> [] ->
+  Forall (fun r : list (list N) => List.length r = c) (genfromtxt_rows body) ->
+  forallb (forallb (is_float_tok fhex)) (genfromtxt_rows body) = true ->
+  numpy_engine fhex body =
+  Some (map (map (mk_num fhex)) (transpose_n c (genfromtxt_rows body))).
+Proof.
+  intros Hne Hall Hfl. unfold numpy_engine.
+  destruct (genfromtxt_rows body) as [|r0 rows] eqn:E; [congruence|].
+  inversion Hall as [|? ? Hr0 Hrows]. subst.
+  rewrite Hfl, andb_true_r.
+  assert (Hl : forallb (fun r : list (list N) => Nat.eqb (List.length r) (List.length r0)) (r0 :: rows) = true).
+  { apply forallb_forall. intros r Hin. rewrite Forall_forall in Hall. rewrite (Hall r Hin).
+    apply Nat.eqb_refl. }
+  rewrite Hl. reflexivity.
+Qed.
+
+(* ---- the domain of C02, line by line (boolean, executable) ------------------------------- *)
+Definition sub_nomatchb (s : rsub) (l : list N) : bool :=
+  match s with
+  | SubComma => nomatchb rx_sub_comma [] l
+  | SubRunonMinus => nomatchb rx_sub_runon_minus [] l
+  | SubRunonDot => nomatchb rx_sub_runon_dot [] l
+  end.
+
+Definition is_data_lineb (c : nat) (raw : list N) : bool :=
+  let l := strip raw in
+  negb (in_str 35 raw) && negb (in_str 34 raw) && negb (in_str 39 raw) && negb (in_str 26 raw)
+  && nomatchb rx_sub_comma [] l && nomatchb rx_sub_runon_minus [] l && nomatchb rx_sub_runon_dot [] l
+  && Nat.eqb (List.length (split_ws l)) c && forallb (is_float_tok fhex) (split_ws l).
+
+Definition dom2_lineb (c : nat) (raw : list N) : bool :=
+  let l := strip raw in
+  match l with
+  | [] => true
+  | _ => startswith [ch_hash] l || is_data_lineb c raw
+  end.
+
+(* the tokens of one line, as the statement reads it: none for blank and comment lines *)
+Definition line_toks (raw : list N) : list (list N) :=
+  let l := strip raw in if startswith [ch_hash] l then [] else split_ws l.
+Definition data_rows (body : list (list N)) : list (list (list N)) :=
+  filter nonempty (map line_toks body).
+
+Lemma apply_sub_id s l : sub_nomatchb s l = true -> apply_sub s l = l.
+Proof. destruct s; cbn [sub_nomatchb apply_sub]; apply re_sub_nomatch. Qed.
+
+Lemma apply_subs_id : forall subs l, (forall s, sub_nomatchb s l = true) -> apply_subs subs l = l.
+Proof.
+  unfold apply_subs. induction subs as [|s subs IH]; intros l H; cbn [fold_left]; [reflexivity|].
+  rewrite apply_sub_id by apply H. apply IH. exact H.
+Qed.
+
+Lemma subs_nomatch_nil s : sub_nomatchb s [] = true.
+Proof. destruct s; reflexivity. Qed.
+
+Lemma cut_comment_absent : forall raw, in_str 35 raw = false -> cut_comment raw = raw.
+Proof.
+  induction raw as [|x raw IH]; intros H; [reflexivity|].
+  unfold in_str in H. cbn [existsb] in H. apply orb_false_iff in H as [Hx Hr].
+  cbn [cut_comment]. unfold ch_hash. rewrite N.eqb_sym, Hx, IH by exact Hr. reflexivity.
+Qed.
+
+Lemma cut_comment_space : forall a t, forallb is_space a = true -> cut_comment (a ++ ch_hash :: t) = a.
+Proof.
+  induction a as [|x a IH]; intros t H.
+  - cbn [app cut_comment]. rewrite N.eqb_refl. reflexivity.
+  - cbn [forallb] in H. apply andb_true_iff in H as [Hx Ha]. cbn [app cut_comment].
+    destruct (N.eqb_spec x ch_hash) as [->|_]; [discriminate Hx|]. rewrite IH by exact Ha. reflexivity.
+Qed.
+
+Lemma cut_comment_all_space : forall a, forallb is_space a = true -> cut_comment a = a.
+Proof.
+  induction a as [|x a IH]; intros H; [reflexivity|].
+  cbn [forallb] in H. apply andb_true_iff in H as [Hx Ha]. cbn [cut_comment].
+  destruct (N.eqb_spec x ch_hash) as [->|_]; [discriminate Hx|]. rewrite IH by exact Ha. reflexivity.
+Qed.
+
+(* line classification *)
+Lemma blank_line_np raw : strip raw = [] -> split_ws (cut_comment raw) = [].
+Proof.
+  intros E. destruct (strip_decomp raw) as (a & b & Eraw & Ha & Hb & _).
+  rewrite E in Eraw. cbn [app] in Eraw.
+  assert (Hs : forallb is_space raw = true) by (rewrite Eraw; apply forallb_app_true; auto).
+  rewrite cut_comment_all_space by exact Hs. apply split_ws_all_space. exact Hs.
+Qed.
+
+Lemma comment_line_np raw : startswith [ch_hash] (strip raw) = true -> split_ws (cut_comment raw) = [].
+Proof.
+  intros H. destruct (strip_decomp raw) as (a & b & Eraw & Ha & _).
+  destruct (strip raw) as [|x l]; [discriminate H|].
+  cbn [startswith] in H. rewrite andb_true_r in H. apply N.eqb_eq in H. subst x.
+  rewrite Eraw. cbn [app]. rewrite cut_comment_space by exact Ha. apply split_ws_all_space. exact Ha.
+Qed.
+
+Lemma dom2_cases c raw : dom2_lineb c raw = true ->
+  strip raw = [] \/ startswith [ch_hash] (strip raw) = true \/
+  (startswith [ch_hash] (strip raw) = false /\ is_data_lineb c raw = true /\ strip raw <> []).
+Proof.
+  unfold dom2_lineb. destruct (strip raw) as [|x l] eqn:E; [auto|].
+  destruct (startswith [ch_hash] (x :: l)); cbn [orb]; auto.
+  intros D. right. right. repeat split; [exact D|discriminate].
+Qed.
+
+(* on a line of the domain both per-line readings are the tokens of the statement *)
+Lemma dom2_line_facts c raw : dom2_lineb c raw = true ->
+  split_ws (cut_comment raw) = line_toks raw /\
+  (forall subs, line_items DSpace subs raw = line_toks raw) /\
+  (line_toks raw = [] \/ List.length (line_toks raw) = c) /\
+  forallb (is_float_tok fhex) (line_toks raw) = true.
+Proof.
+  intros H. apply dom2_cases in H. destruct H as [E|[E|(E & D & _)]].
+  - (* blank *)
+    assert (T : line_toks raw = []) by (unfold line_toks; rewrite E; reflexivity).
+    rewrite T. split; [apply blank_line_np; exact E|]. split; [|split; [auto|reflexivity]].
+    intros subs. unfold line_items. rewrite E. cbn [startswith].
+    rewrite apply_subs_id by apply subs_nomatch_nil. reflexivity.
+  - (* comment *)
+    assert (T : line_toks raw = []) by (unfold line_toks; rewrite E; reflexivity).
+    rewrite T. split; [apply comment_line_np; exact E|]. split; [|split; [auto|reflexivity]].
+    intros subs. unfold line_items. rewrite E. reflexivity.
+  - (* data line *)
+    unfold is_data_lineb in D. repeat (apply andb_true_iff in D as [D ?]).
+    repeat match goal with Hn : negb _ = true |- _ => apply negb_true_iff in Hn end.
+    assert (T : line_toks raw = split_ws (strip raw)) by (unfold line_toks; rewrite E; reflexivity).
+    rewrite T. split; [|split; [|split]].
+    + rewrite cut_comment_absent by assumption. symmetry. apply split_ws_strip.
+    + intros subs. unfold line_items. rewrite E.
+      rewrite apply_subs_id by (intros [| |]; cbn [sub_nomatchb]; assumption).
+      rewrite remove_char_absent by (apply in_str_strip_false; assumption).
+      destruct (strip raw) as [|x l] eqn:El; [reflexivity|]. rewrite <- El.
+      cbn [split_line]. apply sow_is_split; apply in_str_strip_false; assumption.
+    + right. apply Nat.eqb_eq. assumption.
+    + assumption.
+Qed.
+
+Lemma dom2_rows c body : Forall (fun raw => dom2_lineb c raw = true) body ->
+  genfromtxt_rows body = data_rows body /\
+  (forall subs, map (line_items DSpace subs) body = map line_toks body) /\
+  Forall (fun raw => line_toks raw = [] \/ List.length (line_toks raw) = c) body /\
+  forallb (forallb (is_float_tok fhex)) (map line_toks body) = true.
+Proof.
+  intros H. split; [|split; [|split]].
+  - unfold genfromtxt_rows, data_rows. f_equal. apply map_ext_in. intros raw Hin.
+    rewrite Forall_forall in H. apply (dom2_line_facts c raw (H raw Hin)).
+  - intros subs. apply map_ext_in. intros raw Hin.
+    rewrite Forall_forall in H. apply (dom2_line_facts c raw (H raw Hin)).
+  - eapply Forall_impl; [|exact H]. intros raw Hr. apply (dom2_line_facts c raw Hr).
+  - apply forallb_forall. intros r Hin. apply in_map_iff in Hin as (raw & <- & Hraw).
+    rewrite Forall_forall in H. apply (dom2_line_facts c raw (H raw Hraw)).
+Qed.
+
+Definition spec_columns (c : nat) (body : list (list N)) : list (list cell) :=
+  map (map (mk_num fhex)) (transpose_n c (data_rows body)).
+
+Theorem numpy_spec c body :
+  Forall (fun raw => dom2_lineb c raw = true) body -> data_rows body <> [] ->
+  numpy_engine fhex body = Some (spec_columns c body).
+Proof.
+  intros H Hne. destruct (dom2_rows c body H) as (E1 & _ & Hall & Hfl).
+  unfold spec_columns. rewrite <- E1 in *.
+  apply numpy_engine_rows; [exact Hne| |].
+  - rewrite E1. unfold data_rows. apply Forall_forall. intros r Hin. apply filter_In in Hin as [Hin Hr].
+    apply in_map_iff in Hin as (raw & <- & Hraw). rewrite Forall_forall in Hall.
+    destruct (Hall raw Hraw) as [E|E]; [rewrite E in Hr; discriminate|exact E].
+  - rewrite E1. unfold data_rows. apply forallb_forall. intros r Hin. apply filter_In in Hin as [Hin _].
+    rewrite forallb_forall in Hfl. apply Hfl. exact Hin.
+Qed.
+
+Theorem normal_spec subs c body :
+  (0 < c)%nat ->
+  Forall (fun raw => dom2_lineb c raw = true) body -> data_rows body <> [] ->
+  normal_engine fhex fstr DSpace subs c body = DOk (spec_columns c body).
+Proof.
+  intros Hc H Hne. destruct (dom2_rows c body H) as (_ & E2 & Hall & Hfl).
+  unfold spec_columns, data_rows in *. rewrite <- (E2 subs) in *.
+  apply normal_engine_rows; try assumption.
+  eapply Forall_impl; [|exact H]. intros raw Hr.
+  destruct (dom2_line_facts c raw Hr) as (_ & E & Hl & _). rewrite (E subs). exact Hl.
+Qed.
+
+Theorem engines_agree subs c body :
+  (0 < c)%nat ->
+  Forall (fun raw => dom2_lineb c raw = true) body -> data_rows body <> [] ->
+  numpy_engine fhex body = Some (spec_columns c body) /\
+  normal_engine fhex fstr DSpace subs c body = DOk (spec_columns c body).
+Proof. intros Hc H Hne. split; [apply numpy_spec|apply normal_spec]; assumption. Qed.
+
+(* ---- the sniffed column count ------------------------------------------------------------- *)
+Lemma inspect_loop_cons raw rest i subs hyph counts :
+  inspect_loop (raw :: rest) i subs hyph counts =
+  let line := strip raw in
+  if negb (nonempty line) then inspect_loop rest (S i) subs hyph counts
+  else
+    let hyph' := if in_str ch_minus line then S hyph else hyph in
+    if startswith [ch_hash] line then inspect_loop rest (S i) subs hyph' counts
+    else
+      let n := List.length (re_findall_joined rx_sow (apply_subs subs line)) in
+      let counts' := n :: counts in
+      match rest with
+      | [] => (hyph', rev counts')
+      | _ => if Nat.leb 20 i then (hyph', rev counts') else inspect_loop rest (S i) subs hyph' counts'
+      end.
+Proof. cbn [inspect_loop]. destruct (strip raw); reflexivity. Qed.
+
+Lemma data_rows_cons_nil raw rest : line_toks raw = [] -> data_rows (raw :: rest) = data_rows rest.
+Proof. intros E. unfold data_rows. cbn [map filter]. rewrite E. reflexivity. Qed.
+
+Lemma inspect_loop_dom c subs : forall body i hyph counts,
+  Forall (fun raw => dom2_lineb c raw = true) body ->
+  exists hyph' k, inspect_loop body i subs hyph counts = (hyph', rev counts ++ repeat c k) /\
+                  (data_rows body <> [] -> (0 < k)%nat).
+Proof.
+  clear fstr. induction body as [|raw rest IH]; intros i hyph counts H.
+  - exists hyph, 0%nat. cbn [inspect_loop repeat]. rewrite app_nil_r. split; [reflexivity|]. intros F. exfalso. apply F. reflexivity.
+  - inversion H as [|? ? Hraw Hrest]; subst. rewrite inspect_loop_cons. cbv zeta.
+    destruct (dom2_line_facts c raw Hraw) as (_ & Hit & _ & _).
+    pose proof (dom2_cases c raw Hraw) as [E|[E|(E & D & Hnb)]].
+    + assert (T : line_toks raw = []) by (unfold line_toks; rewrite E; reflexivity).
+      rewrite E. cbn [nonempty negb]. rewrite (data_rows_cons_nil _ _ T). apply IH. exact Hrest.
+    + assert (T : line_toks raw = []) by (unfold line_toks; rewrite E; reflexivity).
+      rewrite E. rewrite (data_rows_cons_nil _ _ T).
+      destruct (negb (nonempty (strip raw))); apply IH; exact Hrest.
+    + rewrite E.
+      assert (Hn : List.length (re_findall_joined rx_sow (apply_subs subs (strip raw))) = c).
+      { unfold is_data_lineb in D. repeat (apply andb_true_iff in D as [D ?]).
+        repeat match goal with Hn : negb _ = true |- _ => apply negb_true_iff in Hn end.
+        rewrite apply_subs_id by (intros [| |]; cbn [sub_nomatchb]; assumption).
+        rewrite sow_inspect_is_split by (apply in_str_strip_false; assumption).
+        apply Nat.eqb_eq. assumption. }
+      rewrite Hn.
+      assert (Hne : nonempty (strip raw) = true).
+      { destruct (strip raw); [congruence|reflexivity]. }
+      rewrite Hne. cbn [negb rev].
+      set (h' := if in_str ch_minus (strip raw) then S hyph else hyph).
+      destruct rest as [|raw2 rest2].
+      * exists h', 1%nat. cbn [repeat]. split; [reflexivity|]. intros _. lia.
+      * destruct (Nat.leb 20 i).
+        -- exists h', 1%nat. cbn [repeat]. split; [reflexivity|]. intros _. lia.
+        -- destruct (IH (S i) h' (c :: counts) Hrest) as (h2 & k & E2 & _).
+           exists h2, (S k). rewrite E2. cbn [rev repeat]. rewrite <- app_assoc. cbn [app].
+           split; [reflexivity|]. intros _. lia.
+Qed.
+
+Lemma all_equal_repeat c k : (0 < k)%nat -> all_equal (repeat c k) = Some c.
+Proof.
+  intros Hk. destruct k as [|k]; [lia|]. cbn [repeat all_equal].
+  assert (H : forallb (Nat.eqb c) (repeat c k) = true).
+  { apply forallb_forall. intros x Hx. apply repeat_spec in Hx. subst x. apply Nat.eqb_refl. }
+  rewrite H. reflexivity.
+Qed.
+
+(* inspect_data_section returns the common token count as soon as the body has a data line *)
+Theorem sniff_spec subs c body :
+  Forall (fun raw => dom2_lineb c raw = true) body -> data_rows body <> [] ->
+  fst (inspect body subs) = Some c.
+Proof using fhex.
+  intros H Hne. unfold inspect.
+  destruct (inspect_loop_dom c subs body 0%nat 0%nat [] H) as (h & k & E & Hk).
+  rewrite E. cbn [rev app fst]. apply all_equal_repeat. apply Hk. exact Hne.
+Qed.
+
+Theorem sniff_twice_spec subs c body :
+  Forall (fun raw => dom2_lineb c raw = true) body -> data_rows body <> [] ->
+  fst (inspect_twice body subs) = Some c.
+Proof using fhex.
+  intros H Hne. unfold inspect_twice.
+  pose proof (sniff_spec subs c body H Hne) as E1.
+  destruct (inspect body subs) as [n rec]. cbn [fst] in E1. subst n.
+  destruct (negb (list_rsub_eqb rec subs)); [|reflexivity].
+  pose proof (sniff_spec rec c body H Hne) as E2.
+  destruct (inspect body rec) as [n2 rec2]. cbn [fst] in E2. subst n2. reflexivity.
+Qed.
+
+End Engines.
